@@ -633,6 +633,21 @@ pub fn run_c06(ctx: &Ctx) -> i32 {
             }
         }
     }
+    // wins in 5 plies need transpositions and entries of earlier iterations to go wrong:
+    // a strided slice of them is part of the quick tier as well
+    let mut deep: Vec<(Pos, Val)> = Vec::new();
+    if quick {
+        for k in [QUEEN, ROOK] {
+            for (i, (p, v)) in tb.positions(k).filter(|(_, v)| *v == Val::Win(5)).enumerate() {
+                if i % 40 == 0 {
+                    deep.push(if i % 80 == 0 { (p.mirror(), v) } else { (p, v) });
+                }
+            }
+        }
+    }
+    ctx.add("completeness_positions_win_in_5_quick_slice", deep.len() as u64);
+    let deep_start = all.len();
+    all.extend(deep);
     let sound_depths: Vec<usize> = if quick { vec![1, 2] } else { vec![1, 2, 3, 4] };
     let max_n: u16 = if quick { 3 } else { 5 };
     let sound_stride = if quick { 11 } else { 1 };
@@ -644,7 +659,7 @@ pub fn run_c06(ctx: &Ctx) -> i32 {
         let n = if let Val::Win(n) = v { Some(*n) } else { None };
         // completeness: forced mate within n plies, depths n..n+2
         if let Some(n) = n {
-            if n <= max_n {
+            if n <= max_n || idx >= deep_start {
                 l.inc("completeness_positions");
                 for d in n as usize..=n as usize + 2 {
                     for &seed in &seeds[..if quick { 2 } else { seeds.len() }] {
@@ -671,7 +686,7 @@ pub fn run_c06(ctx: &Ctx) -> i32 {
             }
         }
         // soundness: any winning terminal claim must be a tablebase win, first move preserving
-        if idx % sound_stride != 0 {
+        if idx % sound_stride != 0 || idx >= deep_start {
             return;
         }
         l.inc("soundness_positions");
@@ -794,9 +809,26 @@ pub fn run_c17(ctx: &Ctx) -> i32 {
             };
             l.inc("recorded_choices");
             for d in n2 as usize..=n2 as usize + 2 {
-                for &seed in &seeds[..if quick { 2 } else { seeds.len() }] {
+                for (si, &seed) in seeds[..if quick { 2 } else { seeds.len() }].iter().enumerate() {
+                    // two ways for a position to be in the history: recorded by the hook on a
+                    // fresh memory, or - as in a real game - because it was the root of an
+                    // earlier search on the same memory (then the table knows it too)
                     let mut artifact = small_artifact(seed, (4, 256));
-                    artifact.verif_record_history(&to_state(rec_pos));
+                    if si == 0 && rec_pos.has_legal_move() {
+                        let pre = Cfg { seed: seed + 11, depth: Some(d.max(2)), workers: Some(1), plan: None };
+                        let r0 = run_search(rec_pos, &pre, Some(artifact));
+                        l.inc("searches");
+                        l.inc("histories_by_real_search");
+                        match r0.artifact {
+                            Some(a) => artifact = a,
+                            None => {
+                                check_run(ctx, "", rec_pos, &pre, &r0, true, &[]);
+                                return;
+                            }
+                        }
+                    } else {
+                        artifact.verif_record_history(&to_state(rec_pos));
+                    }
                     let cfg = Cfg { seed, depth: Some(d), workers: Some(1), plan: None };
                     let run = run_search(p, &cfg, Some(artifact));
                     l.inc("searches");
@@ -879,32 +911,37 @@ fn public_digest(p: &Pos, seed: u64, depth: usize) -> Result<String, String> {
     r.map(|_| s)
 }
 
-fn c19_cases(quick: bool, seeds: &[u64]) -> Vec<(usize, u64, usize, bool)> {
-    // (position index, seed, depth, public entry point?)
+/// mode: 0 = public entry point, 1 = explicit single worker with a roomy small memory,
+/// 2 = explicit single worker with a crowded memory (buckets overflow, entries get displaced)
+fn c19_cases(quick: bool, seeds: &[u64]) -> Vec<(usize, u64, usize, u8)> {
     let n = c19_positions(quick).len();
     let mut v = Vec::new();
     for i in 0..n {
         for &s in seeds {
             for d in 1..=3 {
-                v.push((i, s, d, true));
+                v.push((i, s, d, 0));
             }
             if i % (if quick { 9 } else { 3 }) == 0 {
-                v.push((i, s, 4, false));
+                v.push((i, s, 4, 1));
                 if !quick {
-                    v.push((i, s, 5, false));
+                    v.push((i, s, 5, 1));
                 }
+            }
+            if i % (if quick { 5 } else { 2 }) == 0 {
+                v.push((i, s, 3, 2));
+                v.push((i, s, 4, 2));
             }
         }
     }
     v
 }
 
-fn c19_digest(p: &Pos, seed: u64, depth: usize, public: bool) -> String {
-    if public {
+fn c19_digest(p: &Pos, seed: u64, depth: usize, mode: u8) -> String {
+    if mode == 0 {
         public_digest(p, seed, depth).unwrap_or_else(|e| format!("ERROR {}", e))
     } else {
         let cfg = Cfg { seed, depth: Some(depth), workers: Some(1), plan: None };
-        let run = run_search(p, &cfg, Some(small_artifact(seed, (4, 256))));
+        let run = run_search(p, &cfg, Some(small_artifact(seed, if mode == 1 { (4, 256) } else { (1, 2) })));
         match run.panicked {
             Some(m) => format!("ERROR {}", m),
             None => run.digest(),
@@ -924,8 +961,8 @@ pub fn c19_child(tier: &str, seeds_csv: &str) {
     let ctx = Ctx::new("C19-child", tier, 0);
     let idx: Vec<usize> = (0..cases.len()).collect();
     par_for(&ctx, &idx, |&i, _| {
-        let (pi, s, d, public) = cases[i];
-        *out[i].lock().unwrap() = c19_digest(&positions[pi], s, d, public);
+        let (pi, s, d, mode) = cases[i];
+        *out[i].lock().unwrap() = c19_digest(&positions[pi], s, d, mode);
     });
     use std::io::Write;
     let stdout = std::io::stdout();
@@ -952,17 +989,18 @@ pub fn run_c19(ctx: &Ctx) -> i32 {
     let first: Vec<std::sync::Mutex<String>> = cases.iter().map(|_| std::sync::Mutex::new(String::new())).collect();
     let idx: Vec<usize> = (0..cases.len()).collect();
     par_for(ctx, &idx, |&i, l| {
-        let (pi, s, d, public) = cases[i];
-        let a = c19_digest(&positions[pi], s, d, public);
-        let b = c19_digest(&positions[pi], s, d, public);
+        let (pi, s, d, mode) = cases[i];
+        let public = mode == 0;
+        let a = c19_digest(&positions[pi], s, d, mode);
+        let b = c19_digest(&positions[pi], s, d, mode);
         l.add("searches", 2);
         if a.starts_with("ERROR") {
             ctx.violation("search-failed", positions[pi].fen(), json!({"fen": positions[pi].fen(), "seed": s, "depth": d, "error": a}));
         } else if a != b {
             ctx.violation(
                 "same-process-runs-differ",
-                format!("{} seed {} depth {} {}", positions[pi].fen(), s, d, if public { "public" } else { "single-worker" }),
-                json!({"fen": positions[pi].fen(), "seed": s, "depth": d, "public_entry_point": public, "first": a, "second": b}),
+                format!("{} seed {} depth {} {}", positions[pi].fen(), s, d, ["public", "single-worker", "single-worker-crowded-memory"][mode as usize]),
+                json!({"fen": positions[pi].fen(), "seed": s, "depth": d, "public_entry_point": public, "memory": if mode == 2 { "1 table x 2 buckets" } else { "roomy" }, "first": a, "second": b}),
             );
         }
         if a.is_empty() || !a.contains("B[") {
@@ -983,8 +1021,8 @@ pub fn run_c19(ctx: &Ctx) -> i32 {
         if a != lines[i] {
             ctx.violation(
                 "other-process-run-differs",
-                format!("{} seed {} depth {} {}", positions[c.0].fen(), c.1, c.2, if c.3 { "public" } else { "single-worker" }),
-                json!({"fen": positions[c.0].fen(), "seed": c.1, "depth": c.2, "public_entry_point": c.3, "this_process": a, "other_process": lines[i]}),
+                format!("{} seed {} depth {} {}", positions[c.0].fen(), c.1, c.2, ["public", "single-worker", "single-worker-crowded-memory"][c.3 as usize]),
+                json!({"fen": positions[c.0].fen(), "seed": c.1, "depth": c.2, "public_entry_point": c.3 == 0, "memory": if c.3 == 2 { "1 table x 2 buckets" } else { "roomy" }, "this_process": a, "other_process": lines[i]}),
             );
         }
     }
@@ -999,7 +1037,7 @@ pub fn run_c19(ctx: &Ctx) -> i32 {
         ctx.get("searches") + schedules,
         ctx.get("searches") + schedules,
         exh,
-        &format!("{}{}", "every position of a strided complete sub-family (plus the corpus) x seeds {0,1,VERIF_SEED} x depth 1..3 through the public Searcher::analyze (fresh memory, three real threads) and depth 4 (thorough 5) with an explicit single worker: the full event sequence (lines, evaluations, depths, node counts) of two runs in this process and of a third run in a separate process must be identical; under loom the public entry point (three threads) must produce one and the same event sequence on every schedule", LOOM_RULE),
+        &format!("{}{}", "every position of a strided complete sub-family (plus the corpus) x seeds {0,1,VERIF_SEED} x depth 1..3 through the public Searcher::analyze (fresh memory, three real threads) and depth 4 (thorough 5) with an explicit single worker, the latter also with a crowded memory of 1 table x 2 buckets at depth 3 and 4 (entries are displaced): the full event sequence (lines, evaluations, depths, node counts) of two runs in this process and of a third run in a separate process must be identical; under loom the public entry point (three threads) must produce one and the same event sequence on every schedule", LOOM_RULE),
         ASSUME,
     )
 }
